@@ -191,7 +191,7 @@ def check_revalidate(ctx):
     if b is not None:
         ew = ctx.sites(b, R.call("FeoxStore::remove_expired_recovery_winners"), inst, exact=1)
         pub = V.PUB_REC(b)
-        rt = R.call("DiskIO::retire_extents")(b)
+        rt = sorted(R.call("DiskIO::retire_extents")(b))[-1:]     # the retirement of the expired winners is the last one
         R.never_after(ctx, inst, b, ew, pub + R.call("RecoveryScanner::block")(b), "expired winners are dropped only after the scan has finished choosing winners")
         R.dom(ctx, inst, b, ew, rt, "[enable_ttl] expired winners are queued before the journalled retirement",
               blocked_edges=frozenset(A.pred_edges(b, lambda e: e.has_call("bool::then") or "recovery_time" in names_of(b, e), "None")), a_desc="remove_expired_recovery_winners")
